@@ -1195,6 +1195,14 @@ def x_noop(it, args, kw):
     return None
 
 
+def x_dataclasses_replace(it, args, kw):
+    """dataclasses.replace(obj, **changes): a new object of the same class with the given fields replaced (E5; the class's __post_init__ is not re-run: the repository's uses are plain records)."""
+    obj = args[0]
+    if not isinstance(obj, VObj):
+        raise OutOfSubset("dataclasses.replace of a non-object")
+    return VObj(obj.cls, {**obj.fields, **kw})
+
+
 def x_catch_warnings(it, args, kw):
     return NoopCM([] if kw.get("record") else None)
 
@@ -1258,6 +1266,7 @@ EXTERN = {
     "warnings.filterwarnings": x_noop,
     "warnings.simplefilter": x_noop,
     "warnings.catch_warnings": x_catch_warnings,
+    "dataclasses.replace": lambda it, args, kw: x_dataclasses_replace(it, args, kw),
     "hypothesis.reporting.with_reporter": lambda it, a, k: NoopCM(None),
     "time.time": x_time,
     "time.monotonic": x_time,
